@@ -56,6 +56,7 @@ func randBlock(r *vh.Rng) []byte {
 }
 
 func isU(it *vh.Item) bool    { return it.K == vh.KUInt }
+func isU8(it *vh.Item) bool   { return it.K == vh.KUInt && it.N < 256 }
 func isBstr(it *vh.Item) bool { return it.K == vh.KBStr || it.K == vh.KBStrI }
 func bstrOf(it *vh.Item) []byte {
 	if it.K == vh.KBStr {
@@ -81,7 +82,7 @@ var specials = map[string]*special{
 			return x.BlockType() == y.BlockType() && bytes.Equal(x.BlockCbor(), y.BlockCbor()) && reflect.DeepEqual(x.Tip, y.Tip)
 		},
 		conforms: func(it *vh.Item) bool {
-			if !arrN(it, 3) || !isU(it.Xs[0]) || !isTag24Bytes(it.Xs[1]) || !conforms(sTip, it.Xs[2]) {
+			if !arrN(it, 3) || !isU8(it.Xs[0]) || !isTag24Bytes(it.Xs[1]) || !conforms(sTip, it.Xs[2]) {
 				return false
 			}
 			content := bstrOf(it.Xs[1].Xs[0])
@@ -121,11 +122,11 @@ var specials = map[string]*special{
 		same: func(a, b protocol.Message) bool {
 			x, y := a.(*chainsync.MsgRollForwardNtN), b.(*chainsync.MsgRollForwardNtN)
 			return x.WrappedHeader.Era == y.WrappedHeader.Era && bytes.Equal(x.WrappedHeader.HeaderCbor(), y.WrappedHeader.HeaderCbor()) &&
-				x.WrappedHeader.ByronType() == y.WrappedHeader.ByronType() && x.WrappedHeader.ByronSize() == y.WrappedHeader.ByronSize() &&
+				(x.WrappedHeader.Era != 0 || x.WrappedHeader.ByronType() == y.WrappedHeader.ByronType()) &&
 				reflect.DeepEqual(x.Tip, y.Tip)
 		},
 		conforms: func(it *vh.Item) bool {
-			if !arrN(it, 3) || !isU(it.Xs[0]) || !conforms(sTip, it.Xs[2]) {
+			if !arrN(it, 3) || !isU8(it.Xs[0]) || !conforms(sTip, it.Xs[2]) {
 				return false
 			}
 			w := it.Xs[1]
